@@ -17,11 +17,11 @@ IdOf(j) == SubSeq(Seed(j, 3), 1, 1 + ((j * 7) % 30))
 MsgOfJ(j) == SubSeq(Seed(j, 4) \o Seed(j, 5) \o Seed(j, 6), 1, 1 + ((j * 11) % 90))
 \* ---- Ha boundary values ----
 QMax == BFromBE(<<1>> \o [z \in 1..8 |-> 0] \o <<0>>)                   \* placeholder, not used
-Rems == << Z0, <<1>>, <<2>>, BSub(NM1, <<2>>), BSub(NM1, <<1>>) >>
+Rems == << Z0, <<1>>, <<2>>, BSub(NM1, <<2>>), BSub(NM1, <<1>>), BSub(NM1, <<128,0,0,0,0,0,0,1>>), BSub(NM1, <<229,110,225,156,214,158,207,36>>) >>
 Quots(j) == << Z0, <<1>>, <<45>>, <<46>>, <<47>>, BFromBE(SubSeq(Seed(j, 7), 1, 8)), BFromBE(<<\h01,\h67,\h98,\h00,\h00,\h00,\h00,\h00>>), BFromBE(SubSeq(Seed(j, 8), 1, 7)) >>
 HaVal(q, rem) == BAdd(BMul(q, NM1), rem)
 HaEntry(q, rem) == [kind |-> "ha", ha |-> BToBE(HaVal(q, rem), 40), fits |-> IF BLt(HaVal(q, rem), <<1>> \o [z \in 1..40 |-> 0]) THEN 1 ELSE 0, expect |-> B32(BAdd(rem, <<1>>))]
-HaEntries(j) == [x \in 1..40 |-> HaEntry(Quots(j)[((x - 1) \div 5) + 1], Rems[((x - 1) % 5) + 1])]
+HaEntries(j) == [x \in 1..56 |-> HaEntry(Quots(j)[((x - 1) \div 7) + 1], Rems[((x - 1) % 7) + 1])]
 ZeroKey(j, hid) == [kind |-> "zerokey", hid |-> hid, idb |-> IdOf(j), k |-> B32(BSubMod(Z0, H1(IdOf(j), hid), N))]
 \* master secrets for which the extraction scalar t2 = k (H1 + k)^-1 is a CHOSEN value s (small, or with all-zero 64-bit limbs): k = s H1 (1 - s)^-1
 T2Vals == << <<2>>, <<1,0,0,0,0,0,0,0,0>>, <<1>> \o [q \in 1..15 |-> 0] \o <<7>>, <<1>> \o [q \in 1..24 |-> 0] \o <<5>>, <<13,236,13,237>>, <<3,0,0,0,0,0,0,0,0,0,0,0,0,0,0,0,0>> >>
@@ -41,6 +41,11 @@ WNum(i) == <<119, 48 + ((i \div 10) % 10), 48 + (i % 10)>>
 RECURSIVE FindWrap(_, _)
 FindWrap(i, hid) == IF i > 60 \/ BLt(WrapKOf(WNum(i), hid), N) THEN WNum(i) ELSE FindWrap(i + 1, hid)
 WrapKeys(j) == IF j > 1 THEN <<>> ELSE << WrapRec(1, FindWrap(0, 1)), WrapRec(2, FindWrap(0, 2)), WrapRec(3, FindWrap(0, 3)) >>
+\* master secrets for which H1 + k lies just BELOW N, at a distance d whose low 64-bit word makes a signed or truncated comparison of the last limb go wrong
+\* (d > 2^63, d = 2^63, d = the low limb of N): no reduction must happen, t1 = N - d
+NearDs == << <<128,0,0,0,0,0,0,1>>, <<128,0,0,0,0,0,0,0>>, <<144,0,0,0,0,0,0,0>>, <<229,110,225,156,214,158,207,37>>, <<127,255,255,255,255,255,255,255>>, <<1,0,0,0,0,0,0,0,0>> >>
+NearKey(j, hid, d) == [kind |-> "nearkey", hid |-> hid, idb |-> IdOf(j), k |-> B32(BSubMod(BSub(N, d), H1(IdOf(j), hid), N)), dist |-> B32(d)]
+NearKeys(j) == IF j > 1 THEN <<>> ELSE [x \in 1..(3 * Len(NearDs)) |-> NearKey(j, ((x - 1) % 3) + 1, NearDs[((x - 1) \div 3) + 1])]
 \* identities whose hash H1(ID || hid) is SHORT (leading zero byte: 1 in 256): searched by the specification among "id000", "id001", ...
 IdNum(i) == <<105, 100, 48 + ((i \div 100) % 10), 48 + ((i \div 10) % 10), 48 + (i % 10)>>
 RECURSIVE FindShort(_, _, _)
@@ -56,6 +61,6 @@ SpecCt2(j, ke, x) == [kind |-> "specct", ke |-> B32(ke), idb |-> IdOf(j), msg |-
 SpecCt(j) == SpecCt2(j, Kof(j, 9), Encrypt(GPow(Kof(j, 9)), PpubE(Kof(j, 9)), IdOf(j), MsgOfJ(j), Kof(j, 2)))
 Init == pidx = 0 /\ pout = <<>>
 Next == pidx < NK /\ pidx' = pidx + 1 /\
-        pout' = << ZeroKey(pidx + 1, 1), ZeroKey(pidx + 1, 2), ZeroKey(pidx + 1, 3), SpecSig(pidx + 1), SpecCt(pidx + 1) >> \o HaEntries(pidx + 1) \o T2Keys(pidx + 1) \o InvKeys(pidx + 1) \o SmallH1(pidx + 1) \o WrapKeys(pidx + 1)
+        pout' = << ZeroKey(pidx + 1, 1), ZeroKey(pidx + 1, 2), ZeroKey(pidx + 1, 3), SpecSig(pidx + 1), SpecCt(pidx + 1) >> \o HaEntries(pidx + 1) \o T2Keys(pidx + 1) \o InvKeys(pidx + 1) \o SmallH1(pidx + 1) \o WrapKeys(pidx + 1) \o NearKeys(pidx + 1)
 Emit == \A j \in 1..Len(pout) : PrintT(<<"PLAN", ToJson(pout[j])>>)
 =============================================================================
